@@ -728,11 +728,28 @@ func runR87(c *Ctx) {
 				if lc, ok := mk.Len.(*ssa.Call); ok && builtinName(lc) == "len" && isOldElem(lc.Call.Args[0]) {
 					lenOfOld = true
 				}
-				for _, r := range *mk.Referrers() {
-					if cp, ok := r.(*ssa.Call); ok && builtinName(cp) == "copy" && cp.Call.Args[0] == ssa.Value(mk) && isOldElem(cp.Call.Args[1]) && lenOfOld {
+				// the destination of the copy: the allocation itself, or the element just stored, read back
+				isNewElem := func(v ssa.Value) bool {
+					if v == ssa.Value(mk) {
+						return true
+					}
+					ld, ok := v.(*ssa.UnOp)
+					if !ok || ld.Op != token.MUL || ld.Block() != st.Block() || !precedes(st, ld) {
+						return false
+					}
+					ia2, ok := ld.X.(*ssa.IndexAddr)
+					return ok && ia2.X == ia.X && ia2.Index == ia.Index
+				}
+				// the source: the old element, read before the store replaced it
+				isOldRead := func(v ssa.Value) bool {
+					ld, ok := v.(*ssa.UnOp)
+					return ok && isOldElem(v) && precedes(ld, st)
+				}
+				eachInstr(fn, func(in2 ssa.Instruction) {
+					if cp, ok := in2.(*ssa.Call); ok && builtinName(cp) == "copy" && isNewElem(cp.Call.Args[0]) && isOldRead(cp.Call.Args[1]) && lenOfOld {
 						carries = true
 					}
-				}
+				})
 			}
 			key := fnm + "|replacement buffer"
 			if carries {
